@@ -366,6 +366,13 @@ def cases(tier, rng):
             cur = nxt
         obs = rng.choice(["tolist", "tolist", "len", "eqstr", "isin", "eqarr"])
         case = {"op": "sa", "enc": enc, "v": _val_json(("rag", rows)), "ops": ops, "obs": obs}
+        # the StringArray is made from a ragged array, from one flat encoded array (one string) or from a 2-d encoded array (equal
+        # lengths); "alias": the source is overwritten after the conversion — the strings must not change (conversion copies)
+        if len(rows) == 1 and rows[0]:
+            case["src"] = rng.choice(["rag", "flat"])
+        elif rows and rows[0] and len({len(r) for r in rows}) == 1:
+            case["src"] = rng.choice(["rag", "matrix"])
+        case["alias"] = rng.random() < 0.5
         if obs in ("eqstr", "isin"):
             pool = (cur[1] if cur[0] == "rag" else [cur[1]]) + rows
             case["s"] = list(rng.choice(pool)) if pool and rng.random() < 0.8 else [rng.choice(codes)]
@@ -510,7 +517,19 @@ def impl(c):
     if op == "sa":
         from bionumpy.string_array import string_array, StringArray
         try:
-            sa = string_array(_build(enc, c["v"]))
+            src = c.get("src", "rag")
+            if src == "flat":
+                source = _build(enc, {"t": "flat", "l": c["v"]["r"][0]})
+            elif src == "matrix":
+                source = EncodedArray(np.array(c["v"]["r"], dtype=np.uint8), _enc(enc))
+            else:
+                source = _build(enc, c["v"])
+            sa = string_array(source)
+            if c.get("alias"):
+                raw = (source.ravel() if isinstance(source, EncodedRaggedArray) else source).raw()
+                if raw.size and raw.flags.writeable:
+                    other = [k for k in (list(range(len(ALPH[enc]))) if enc != "BaseEncoding" else [ord(ch) for ch in ALPH[enc]]) if k != int(raw.ravel()[0])]
+                    raw[...] = other[0]
             for o in c["ops"]:
                 if o["o"] == "index":
                     sa = sa[_np_idx(o["ix"])]
